@@ -170,9 +170,10 @@ inductive Touch (s s' : Sys) (m : Msg) (ms : List Msg) : Prop where
       (hx : rewardExec s.reward rewardA (s1.hubTokenOf s1.reward.hub) (s1.hubDispatcherOf s1.reward.hub)
               (s1.chain.bank rewardA) sender rm = .ok (s'.reward, ms))
       (h : s'.hub = s.hub) (b : s'.bsei = s.bsei) (t : s'.stsei = s.stsei) (d : s'.disp = s.disp) (g : s'.reg = s.reg)
-  | disp (env : DispEnv) (sender : Addr) (funds : List (Denom × Nat)) (dm : DispMsg)
+  | disp (s1 : Sys) (sender : Addr) (funds : List (Denom × Nat)) (dm : DispMsg)
       (heq : m = .wasm sender dispA (.disp dm) funds)
-      (hx : dispExec s.disp dispA env sender dm = .ok (s'.disp, ms))
+      (hmv : s.moveFunds sender dispA funds = .ok s1) (hch : s'.chain = s1.chain)
+      (hx : dispExec s.disp dispA s1.dispEnv sender dm = .ok (s'.disp, ms))
       (h : s'.hub = s.hub) (b : s'.bsei = s.bsei) (t : s'.stsei = s.stsei) (r : s'.reward = s.reward) (g : s'.reg = s.reg)
   | reg (s1 : Sys) (sender : Addr) (funds : List (Denom × Nat)) (rm : RegMsg)
       (heq : m = .wasm sender regA (.reg rm) funds) (h1 : s1.reg = s.reg)
@@ -283,7 +284,7 @@ theorem handle_touch (s s' : Sys) (m : Msg) (ms : List Msg) (hx : s.handle m = .
                   · cases hx
                   · rename_i r hr
                     cases hx
-                    refine .disp s1.dispEnv sender funds dm (by rw [t5]) ?_ sc.hub sc.bsei sc.stsei sc.reward sc.reg
+                    refine .disp s1 sender funds dm (by rw [t5]) (by rw [← t5]; exact h1) rfl ?_ sc.hub sc.bsei sc.stsei sc.reward sc.reg
                     rw [← sc.disp]; exact hr
                 · cases hx
               · simp only [t5, if_false] at hx
@@ -350,7 +351,7 @@ theorem handle_sentBy (s s' : Sys) (m : Msg) (ms : List Msg) (hx : s.handle m = 
     | reward s1 sender funds rm heq h1 _ _ hx' h b' t d' g =>
       rw [hm] at heq; injection heq with _ e2 _ _; subst e2
       exact rewardExec_sentBy _ _ _ _ _ _ _ _ _ hx'
-    | disp env sender funds dm heq hx' h b' t r g =>
+    | disp env sender funds dm heq _ _ hx' h b' t r g =>
       rw [hm] at heq; injection heq with _ e2 _ _; subst e2
       exact dispExec_sentBy _ _ _ _ _ _ _ hx'
     | reg s1 sender funds rm heq h1 _ _ hx' h b' t r d' =>
@@ -392,7 +393,7 @@ theorem exec_rejected_hub (s : Sys) (sender : Addr) (funds : List (Denom × Nat)
     | bsei s1 sender' funds' tm heq _ _ _ _ _ _ _ => injection heq with _ e2 _ _; cases e2
     | stsei blk sender' funds' tm heq _ _ _ _ _ _ => injection heq with _ e2 _ _; cases e2
     | reward s1 sender' funds' rm heq _ _ _ _ _ _ _ _ _ => injection heq with _ e2 _ _; cases e2
-    | disp env sender' funds' dm heq _ _ _ _ _ _ => injection heq with _ e2 _ _; cases e2
+    | disp env sender' funds' dm heq _ _ _ _ _ _ _ _ => injection heq with _ e2 _ _; cases e2
     | reg s1 sender' funds' rm heq _ _ _ _ _ _ _ _ _ => injection heq with _ e2 _ _; cases e2
 
 theorem exec_rejected_disp (s : Sys) (sender : Addr) (funds : List (Denom × Nat)) (dm : DispMsg)
@@ -409,11 +410,11 @@ theorem exec_rejected_disp (s : Sys) (sender : Addr) (funds : List (Denom × Nat
       · exact hm' _ _ _ _ rfl
       · injection heq with _ e2 _ _
         rcases ht with ht | ht <;> (rw [ht] at e2; cases e2)
-    | disp env sender' funds' dm' heq hx' _ _ _ _ _ =>
+    | disp env sender' funds' dm' heq _ _ hx' _ _ _ _ _ =>
       injection heq with e1 _ e3 e4
       injection e3 with e3
       subst e1; subst e3; subst e4
-      obtain ⟨err, he⟩ := h env
+      obtain ⟨err, he⟩ := h env.dispEnv
       rw [he] at hx'; cases hx'
     | hub s1 sender' funds' hm' heq _ _ _ _ _ _ _ _ _ => injection heq with _ e2 _ _; cases e2
     | bsei s1 sender' funds' tm heq _ _ _ _ _ _ _ => injection heq with _ e2 _ _; cases e2
@@ -444,7 +445,7 @@ theorem exec_rejected_reward (s : Sys) (sender : Addr) (funds : List (Denom × N
     | hub s1 sender' funds' hm' heq _ _ _ _ _ _ _ _ _ => injection heq with _ e2 _ _; cases e2
     | bsei s1 sender' funds' tm heq _ _ _ _ _ _ _ => injection heq with _ e2 _ _; cases e2
     | stsei blk sender' funds' tm heq _ _ _ _ _ _ => injection heq with _ e2 _ _; cases e2
-    | disp env sender' funds' dm heq _ _ _ _ _ _ => injection heq with _ e2 _ _; cases e2
+    | disp env sender' funds' dm heq _ _ _ _ _ _ _ _ => injection heq with _ e2 _ _; cases e2
     | reg s1 sender' funds' rm' heq _ _ _ _ _ _ _ _ _ => injection heq with _ e2 _ _; cases e2
 
 end Krp
